@@ -29,6 +29,7 @@ type Env struct {
 	cancel  context.CancelFunc
 	runDone chan error
 	Err     string // harness-level problem (lost barrier, timeout)
+	Retries int    // channel barriers that had to be re-sent
 }
 
 func (e *Env) record(ev Event, snap Snapshot) {
@@ -235,6 +236,7 @@ func (e *Env) chanBarrier(c int64) bool {
 		case <-ch:
 			return true
 		case <-time.After(20 * time.Second):
+			e.Retries++
 			// only a barrier dropped by sendOut's drain can get here; a merely slow one never does
 		}
 	}
